@@ -486,6 +486,8 @@ class Ex:
 
     # ---- loops
     def _loopspec(self, node, fp_src):
+        if id(node) not in self._loop_ord:
+            raise Unsupported(f"loop `{fp_src}` lies in an inlined callee; give the callee its own contract")
         ordn = self._loop_ord[id(node)]
         ls = self.spec.loops.get(ordn)
         if ls is None:
@@ -562,7 +564,7 @@ class Ex:
             raise Unsupported(f"cannot havoc {hint}={v!r}")
 
     def st_For(self, s):
-        it = self.ev(s.iter)
+        it = self.deopt(self.ev(s.iter), self.site(s.iter))
         # concrete python iterables: unroll
         if isinstance(it, (tuple, list, frozenset, set)):
             broke = False
@@ -623,7 +625,7 @@ class Ex:
                 nxt = k + 1
             self.cover(f"loop{ordn}.body")
             if ls.ghost_start:
-                ls.ghost_start(self, seen if mode == "set" else k)
+                ls.ghost_start(self, seen if mode == "set" else k, lst.ety.wrap(x) if mode == "set" else el)
             try:
                 self.exec_block(s.body)
             except _Continue:
@@ -631,7 +633,7 @@ class Ex:
             except _Break:
                 return  # continues after the loop, skipping orelse
             if ls.ghost_end:
-                ls.ghost_end(self, seen if mode == "set" else k)
+                ls.ghost_end(self, seen if mode == "set" else k, lst.ety.wrap(x) if mode == "set" else el)
             self.cover(f"loop{ordn}.end")
             for nm, f in ls.inv(self, nxt):
                 self.oblige(f"loop{ordn}.preserved[{nm}]", f, kind="inv-preserved", site=ls.fingerprint or "")
@@ -696,6 +698,9 @@ class Ex:
         raise Unsupported("assign target " + self.site(target))
 
     def set_field(self, obj: VObj, name, v):
+        h = getattr(self.spec, "on_field", None)
+        if h is not None:
+            h(self, obj, name, True)
         self.heap[(obj.id, name)] = v
 
     def _unpack(self, v, n, node):
@@ -798,6 +803,9 @@ class Ex:
             return VGlobal(d)
         if isinstance(obj, VObj):
             if (obj.id, attr) in self.heap:
+                h = getattr(self.spec, "on_field", None)
+                if h is not None:
+                    h(self, obj, attr, False)
                 return self.heap[(obj.id, attr)]
             return self.class_attr(obj, obj.cls, attr, node)
         if isinstance(obj, VClass):
@@ -1151,8 +1159,10 @@ class Ex:
         if isinstance(v, (VObj, VFunc, VClass, VBound, VGlobal, VTuple)):
             return True if not isinstance(v, VTuple) else len(v.items) > 0
         if isinstance(v, VOpaque):
-            if v.kind == "emptylist":
+            if v.kind in ("emptylist", "emptyset", "emptydict"):
                 return False
+            if v.kind == "listofset":
+                return self.truth(v.data)
             return True
         raise Unsupported(f"truth of {v!r}")
 
@@ -1309,6 +1319,14 @@ class Ex:
             return res
         raise Unsupported(f"comprehension over {it!r}")
 
+    def deopt(self, v, what):
+        """use of a possibly-None value where None would raise TypeError"""
+        if isinstance(v, VOpt):
+            self.oblige(f"no-TypeError-on-None[{what}]", v.some, kind="safety", site=what)
+            self.assume(v.some)
+            return v.val
+        return v
+
     def quantify_gen(self, gen, mode):
         """any()/all() over a generator expression."""
         e, scope = gen.data
@@ -1324,11 +1342,13 @@ class Ex:
         old = self.scope
         self.scope = Scope(scope)
         try:
-            it = self.ev(g.iter)
+            it = self.deopt(self.ev(g.iter), self.site(g.iter))
             if isinstance(it, VDict):
                 it = VSet(it.dom, it.kty)
             if isinstance(it, VOpaque) and it.kind == "emptylist":
                 it = []
+            if isinstance(it, VOpaque) and it.kind == "listofset":
+                it = it.data
             if isinstance(it, (tuple, list, frozenset, set)):
                 parts = []
                 for x in it:
